@@ -856,8 +856,12 @@ ExitStatus Builder::Build(string* err) {
         *err = "subcommand failed";
     } else if (failures_allowed < config_.failures_allowed)
       *err = "cannot make progress due to previous errors";
-    else
+    else {
+      // No command failed, so the recorded exit code is still ExitSuccess;
+      // being stuck must not be reported as a successful build.
       *err = "stuck [this is a bug]";
+      return ExitFailure;
+    }
 
     return GetExitCode();
   }
